@@ -11,7 +11,7 @@ RULE = ("quick: every RGB colour on a 17^3 grid + all channel-edge combinations 
 ASSUMPTIONS = ["STANDARD_PALETTE / WINDOWS_PALETTE contents are data (the 16 target entries); the 8-bit "
                "palette is cross-checked against docs/source/appendix/colors.rst and the xterm definition",
                "the metric is Rich's weighted-RGB 'redmean' formula, re-coded independently"]
-REQUIRED = ["mon.rendered_conversion", "mon.rendered_default_over_colour", "mon.constructor_route", "mon.downgrade", "mon.idempotent", "mon.argmin", "mon.ansi_codes", "mon.grey", "mon.palette_row"]
+REQUIRED = ["mon.rendered_conversion", "mon.rule_256", "mon.rendered_default_over_colour", "mon.constructor_route", "mon.downgrade", "mon.idempotent", "mon.argmin", "mon.ansi_codes", "mon.grey", "mon.palette_row"]
 MIN_NONTRIVIAL = {"quick": 5000, "thorough": 1000000}
 EXHAUSTIVE = {"quick": False, "thorough": True}
 
@@ -105,9 +105,13 @@ def check_color(ctx, color, api, pal, nontrivial_sig=None):
                 if got != best:
                     ctx.violation("not-nearest:%s" % system.name,
                                   dict(wit, rgb=rgb, got_d2=got, best_d2=best))
-        # --- greys to 256 land on the ramp or black / white
+        # --- greys to 256 land on the ramp or black / white; every colour where the documented rule puts it
         if system == ColorSystem.EIGHT_BIT and src_kind == "truecolor":
             r, g, b = color.triplet
+            ctx.count("mon.rule_256")
+            want256 = palette_ref.to_256(r, g, b)
+            if out.number != want256:
+                ctx.violation("truecolor-to-256-not-by-the-documented-rule", dict(wit, want_number=want256))
             if r == g == b:
                 ctx.count("mon.grey")
                 if not (out.number in (16, 231) or 232 <= out.number <= 255):
@@ -159,20 +163,46 @@ def check_color(ctx, color, api, pal, nontrivial_sig=None):
     return changed
 
 
+_PALETTE_SNAPSHOT = {}
+
+
 def _palettes(api):
+    """The three palettes AS DATA, read once per process before anything else touches them (the tables are module-level
+    objects of the library; see _show_palettes)."""
+    if not _PALETTE_SNAPSHOT:
+        _, _, _, _, P = api
+        _PALETTE_SNAPSHOT["std"] = [tuple(P.STANDARD_PALETTE[i]) for i in range(16)]
+        _PALETTE_SNAPSHOT["win"] = [tuple(P.WINDOWS_PALETTE[i]) for i in range(16)]
+        _PALETTE_SNAPSHOT["p256"] = [tuple(P.EIGHT_BIT_PALETTE[i]) for i in range(256)]
+    return _PALETTE_SNAPSHOT["std"], _PALETTE_SNAPSHOT["win"], _PALETTE_SNAPSHOT["p256"]
+
+
+def _show_palettes(ctx, api):
+    """History: the program has displayed the palettes (they are renderables: console.print(palette) draws a table
+    of swatches).  Looking at a palette must not change what conversions do afterwards."""
+    import io
+    from rich.console import Console
     _, _, _, _, P = api
-    std = [tuple(P.STANDARD_PALETTE[i]) for i in range(16)]
-    win = [tuple(P.WINDOWS_PALETTE[i]) for i in range(16)]
-    p256 = [tuple(P.EIGHT_BIT_PALETTE[i]) for i in range(256)]
-    return std, win, p256
+    c = Console(file=io.StringIO(), width=100, color_system="truecolor", force_terminal=True, _environ={})
+    for pal in (P.STANDARD_PALETTE, P.EIGHT_BIT_PALETTE, P.WINDOWS_PALETTE):
+        c.print(pal)
+        pal.__rich__()
+    ctx.count("mon.palettes_shown_before")
 
 
 def wl_palette(ctx):
-    """The 8-bit palette used for 8-bit -> 16 conversion against two independent sources."""
-    if ctx.shard != 0:
-        return
+    """The 8-bit palette used for 8-bit -> 16 conversion against two independent sources - on every shard, and on the
+    odd ones after the palettes have been displayed."""
     api = _api()
-    std, win, p256 = _palettes(api)
+    _palettes(api)
+    if ctx.shard % 2:
+        _show_palettes(ctx, api)
+    _, _, _, _, P = api
+    std, win = _palettes(api)[:2]
+    p256 = [tuple(P.EIGHT_BIT_PALETTE[i]) for i in range(256)]          # the live table, now
+    for name, snap, live in (("STANDARD", std, P.STANDARD_PALETTE), ("WINDOWS", win, P.WINDOWS_PALETTE)):
+        if [tuple(live[i]) for i in range(16)] != snap:
+            ctx.violation("palette-changed-by-displaying-it:" + name, {"now": [tuple(live[i]) for i in range(16)]})
     ref = palette_ref.xterm256()
     for number, name, rgb in docs_colors.rows():
         ctx.count("mon.palette_row")
@@ -235,6 +265,14 @@ def wl_grid(ctx):
                     continue
                 ch = check_color(ctx, _triplet_color(api, r, g, b), api, pal)
                 ctx.case_done(("rgb", r, g, b), ch, None)
+    # the colours at the edge of the grey test (saturation exactly one tenth)
+    for r, g, b in palette_ref.saturation_boundary_colours():
+        k += 1
+        if k % ctx.nshards != ctx.shard:
+            continue
+        ch = check_color(ctx, _triplet_color(api, r, g, b), api, pal)
+        ctx.count("mon.saturation_boundary")
+        ctx.case_done(("rgb", r, g, b), ch, None)
     # greys, all 256
     for v in range(ctx.shard, 256, ctx.nshards):
         check_color(ctx, _triplet_color(api, v, v, v), api, pal)
@@ -335,6 +373,9 @@ def wl_all_rgb(ctx):
                     ctx.violation("out-of-gamut:EIGHT_BIT", {"rgb": rgb, "out": repr(o), "out_number": num})
                 elif r == g == b and not (num in (16, 231) or 232 <= num <= 255):
                     ctx.violation("grey-off-ramp", {"rgb": rgb, "out_number": num})
+                elif num != palette_ref.to_256(r, g, b):
+                    ctx.violation("truecolor-to-256-not-by-the-documented-rule", {"rgb": rgb, "out_number": num,
+                                                                                  "want_number": palette_ref.to_256(r, g, b)})
                 elif downgrade(o, EB) != o:
                     ctx.violation("not-idempotent:EIGHT_BIT", {"rgb": rgb})
         ctx.count("mon.downgrade", 65536 * 3)
